@@ -2,6 +2,7 @@ import PdshVerif.Pcp.Isolated
 import PdshVerif.Pcp.Commute
 import PdshVerif.Pcp.Spec
 import PdshVerif.Pcp.Multi
+import PdshVerif.Pcp.SessionLemmas
 
 /-! # C11  pdcp/rpdcp reproduce the source tree exactly on every target
 
@@ -582,6 +583,54 @@ theorem errfp_race_witness :
         (recG.map fun b => (1, some b))).conns.map (·.out) = [[.ack], [.err .path, .err .path, .ack]]) ∧
     ((((Multi.init [ro, ro] rfs).run [ro, ro] (recF.map fun b => (0, some b))).overlapAt false [ro, ro] (0, some 10)
         (recG.map fun b => (1, some b))).conns.map (·.out) = [[.err .path, .ack], [.err .path, .ack]]) := by
+  decide +kernel
+
+/-! ## The interactive sender (pcp_client.c with its reaction to replies, Pcp/Session.lean) -/
+
+/-- In a session -- the client model reacting to every reply, against the receiver automaton -- the
+receiver's state is `step` folded over exactly the bytes the client has sent. -/
+theorem session_receiver_in_step (so : SOpts) (co : COpts) (o : Opts) (fs : FS) (es : List Entry) :
+    (session so co o fs es).st = (session so co o fs es).sent.foldl (step o) (enter o (St.init fs) o.dest) :=
+  session_sync so co o fs es
+
+/-- A session in which no reply read by the client was negative has sent exactly `send so srcs`: the
+all-positive sender model of Send.lean is what the interactive client does on such runs (either form of
+the client). -/
+theorem session_without_error_sends (so : SOpts) (co : COpts) (o : Opts) (fs : FS) (srcs : List (Str × Tree))
+    (hf : (session so co o fs (expandAll srcs)).failed = false) :
+    (session so co o fs (expandAll srcs)).sent = send so srcs :=
+  session_clean so co o fs srcs hf
+
+/-- ... and then the session ends in the state `run o fs (send so srcs)` that `copy_roundtrip`,
+`copy_with_write_faults` and the `received_*`/`preserve_meta_*` theorems describe. -/
+theorem session_without_error_is_run (so : SOpts) (co : COpts) (o : Opts) (fs : FS) (srcs : List (Str × Tree))
+    (hf : (session so co o fs (expandAll srcs)).failed = false) :
+    sessionEnd so co o fs srcs = run o fs (send so srcs) := by
+  unfold sessionEnd run
+  rw [session_sync, session_clean so co o fs srcs hf]
+
+/-- `/w/d` holds a regular FILE `t`: the directory `t` cannot be created -/
+def sfs : FS := fun p =>
+  if p = [] then some (.dir 0o755 none)
+  else if p = [[119]] then some (.dir 0o755 none)
+  else if p = [[119], [100]] then some (.dir 0o755 none)
+  else if p = [[119], [100], [116]] then some (.file 0o644 none [90])
+  else none
+
+def sso : SOpts := { preserve := false, reverse := false, host := [], subsec := true, sentinelFix := true }
+
+/-- `pdcp -r t /w/d` with `t/` holding the one-byte file `e` -/
+def ssrcs : List (Str × Tree) := [([116], .dir 0o755 0 0 [([101], .file 0o644 0 0 [88])])]
+
+/-- Finding F11-DIRFAIL-SCATTER mirrored in the session model, and its repair.  The target refuses the
+directory `t` (a file is in the way).  The client as it is goes on with its list: the entry `e` of `t`
+lands in the PARENT `/w/d`.  The repaired client (`skipRefused`) sends the `D` record and nothing else,
+and `/w/d/e` does not appear. -/
+theorem dirfail_scatter_witness :
+    ((sessionEnd sso ⟨false⟩ ro sfs ssrcs).fs [[119], [100], [101]]).isSome = true ∧
+    ((sessionEnd sso ⟨true⟩ ro sfs ssrcs).fs [[119], [100], [101]]).isSome = false ∧
+    (session sso ⟨true⟩ ro sfs (expandAll ssrcs)).sent = dRecord 0o755 [116] ∧
+    (sessionEnd sso ⟨true⟩ ro sfs ssrcs).out.reverse = [.ack, .err .path] := by
   decide +kernel
 
 end PdshVerif.Props.C11
